@@ -200,7 +200,9 @@ def f6_files(tier):
                     PO = lambda: G.seg([('/', ['NODATA'], [['author', 'String', 'c3a9e697a5'], ['n', 'Int32', '07000000']]),
                                         (paths[0], ['NODATA'], [['unit', 'String', '56']])], newlist=False, big=big)
                     PON = lambda: G.seg([("/'g'", ['NODATA'], [['t', 'TimeStamp', '00000000000000800100000000000000']])], big=big)
-                    shapes = {'S': [S()], 'S,S2': [S(), S2()], 'S,nometa': [S(), NM()], 'S,inh': [S(), INH()],
+                    INH2 = lambda c=chunks: G.seg([(paths[0], ['NODATA'])] + ([(paths[1], ['SAME'])] if len(elems) > 1 else []),
+                                                  newlist=False, chunks=c, interleaved=il, big=big)
+                    shapes = {'S': [S()], 'S,S2': [S(), S2()], 'S,nometa': [S(), NM()], 'S,inh': [S(), INH()], 'S,inh2': [S(), INH2()],
                               'S,nometa,S2': [S(), NM(), S2(1)], 'S,props-only': [S(), PO()], 'S,props-only-newlist': [S(), PON()]}
                     for sname, h in shapes.items():
                         if tier == 'quick' and sname in ('S,nometa,S2',) and chunks > 1:
@@ -281,6 +283,16 @@ def f3_files(tier, daqmx=True, scaled=True):
                _uprop('NI_Scale[0]_Polynomial_Input_Source', 0xFFFFFFFF),
                _sprop('NI_Scale[1]_Scale_Type', 'Linear'), _dprop('NI_Scale[1]_Linear_Slope', 2.0),
                _dprop('NI_Scale[1]_Linear_Y_Intercept', 1.0), _uprop('NI_Scale[1]_Linear_Input_Source', 0)]
+        pre = 'NI_Scale[0]_Strain_'
+        strain = [_uprop('NI_Number_Of_Scales', 1), _sprop('NI_Scale[0]_Scale_Type', 'Strain'), _uprop(pre + 'Configuration', 10183),
+                  _dprop(pre + 'Poisson_Ratio', 0.3), _dprop(pre + 'Gage_Resistance', 350.0), _dprop(pre + 'Lead_Wire_Resistance', 0.0),
+                  _dprop(pre + 'Initial_Bridge_Voltage', 0.0), _dprop(pre + 'Gage_Factor', 2.1),
+                  _dprop(pre + 'Bridge_Shunt_Calibration_Gain_Adjustment', 1.0), _dprop(pre + 'Voltage_Excitation', 2.5),
+                  _uprop(pre + 'Input_Source', 0xFFFFFFFF)]
+        for t in ('DoubleFloat', 'SingleFloat', 'Int16'):
+            out.append(('scaled/strain/%s' % t, [G.seg([(A, _full(t, 3), strain), (B, _full('Int8', 1))], chunks=2)]))
+            out.append(('scaled/strain-quarter/%s' % t, [G.seg([(A, _full(t, 3), [p if p[0] != pre + 'Configuration' else _uprop(pre + 'Configuration', 10271)
+                                                                                for p in strain]), (B, _full('Int8', 1))], chunks=2)]))
         out.append(('scaled/two-deep', [G.seg([(A, _full('Int16', 3), two), (B, _full('Int8', 1))], chunks=2)]))
     # (5) specials
     out.append(('special/no-data-type', [G.seg([(A, ['NODATA']), (B, _full('Int16', 2))])]))
@@ -294,6 +306,9 @@ def f3_files(tier, daqmx=True, scaled=True):
     out.append(('special/strings', [G.seg([(A, ['FULL', 'String', 3, 0])]), G.seg([(A, ['FULL', 'String', 2, 9])], chunks=2)]))
     out.append(('special/padding', [G.seg([(A, _full('Int32', 2)), (B, _full('Int16', 1))], pad=3, chunks=2),
                                     G.seg([(A, ['SAME'])], newlist=False, pad=5)]))
+    out.append(('special/padding-varying', [G.seg([(A, _full('Int32', 2)), (B, _full('Int16', 1))], pad=7, chunks=2),
+                                            G.seg([], meta=False, chunks=1), G.seg([(A, ['SAME'])], newlist=False, pad=0),
+                                            G.seg([(B, ['SAME'])], newlist=False, pad=2), G.seg([(A, _full('Int32', 1))], pad=0)]))
     out.append(('special/props-only-last', [G.seg([(A, _full('Int32', 2)), (B, _full('Int16', 1))], chunks=2),
                                             G.seg([('/', ['NODATA'], [_sprop('closing', 'done')]), ("/'g'", ['NODATA'], [_uprop('n', 7)]),
                                                    ("/'late'/'x'", ['NODATA'], [_sprop('unit', 'V')])])]))
